@@ -118,6 +118,9 @@ type Wire struct {
 	tagPos map[string]*proto.EntryId
 	// coordination requests the coordinator has sent so far: the network may deliver any of them again, late
 	sent []sentMsg
+	// NewTerm answers whose head is below the commit offset of the answering node's database (a node that installed
+	// a snapshot reports the head of its emptied log): the root cause of a listed finding
+	headBelowCommit []string
 }
 
 // sentMsg is a coordination request as it left the coordinator.
@@ -127,6 +130,24 @@ type sentMsg struct {
 	nt   *proto.NewTermRequest
 	bl   *proto.BecomeLeaderRequest
 	af   *proto.AddFollowerRequest
+}
+
+// checkReportedHead records a NewTerm answer that reports less than the node's database already holds.
+func (w *Wire) checkReportedHead(n *Node, name string, term int64, head *proto.EntryId) {
+	if head == nil {
+		return
+	}
+	if dbc := dbCommitOffset(n.kvF.Last()); head.Offset < dbc {
+		w.mu.Lock()
+		w.headBelowCommit = append(w.headBelowCommit, fmt.Sprintf("%s answered NewTerm(%d) with head (%d,%d) while its database is at commit offset %d", name, term, head.Term, head.Offset, dbc))
+		w.mu.Unlock()
+	}
+}
+
+func (w *Wire) reportedHeadsBelowCommit() []string {
+	w.mu.Lock()
+	defer w.mu.Unlock()
+	return append([]string(nil), w.headBelowCommit...)
 }
 
 func (w *Wire) remember(m sentMsg) {
@@ -172,6 +193,7 @@ func (w *Wire) deliverLate(i int) string {
 		}
 		w.hist.add(Event{Kind: "newterm.answered", From: m.node, To: coordName, Term: m.nt.Term, Head: res.HeadEntryId, Offset: int64(inc), Detail: "late"})
 		n.noteFenced(m.nt.Term, res.HeadEntryId)
+		w.checkReportedHead(n, m.node, m.nt.Term, res.HeadEntryId)
 		return fmt.Sprintf("late NewTerm(%d) to %s accepted", m.nt.Term, m.node)
 	case "becomeleader":
 		w.hist.add(Event{Kind: "late.becomeleader", From: coordName, To: m.node, Term: m.bl.Term, Follower: m.bl.FollowerMaps})
@@ -332,6 +354,7 @@ func (r *coordRPC) NewTerm(ctx context.Context, node model.Server, req *proto.Ne
 	// the node has answered: from this instant it is fenced in req.Term (C04 starts observing here)
 	w.hist.add(Event{Kind: "newterm.answered", From: name, To: coordName, Term: req.Term, Head: res.HeadEntryId, Offset: int64(inc)})
 	n.noteFenced(req.Term, res.HeadEntryId)
+	w.checkReportedHead(n, name, req.Term, res.HeadEntryId)
 	w.mu.Lock()
 	hold := w.newTermHold[name]
 	delete(w.newTermHold, name)
@@ -371,6 +394,9 @@ func (r *coordRPC) BecomeLeader(ctx context.Context, node model.Server, req *pro
 		w.hist.add(Event{Kind: "becomeleader.refused", From: name, To: coordName, Term: req.Term, Err: errStr(err)})
 		return nil, err
 	}
+	// again after the node has accepted: a duplicate NewTerm of the same term may have been answered (and noted as a
+	// fence) between the first note and the node taking the request
+	n.noteLeader(req.Term)
 	w.hist.add(Event{Kind: "becomeleader.ok", From: name, To: coordName, Term: req.Term})
 	if !w.isUp(coordName, name) {
 		return nil, errUnavailable
